@@ -58,6 +58,10 @@ impl MatrixId {
         }
 
         if let Some((first_raw, second_raw)) = s.split_once('/') {
+            if first_raw.is_empty() || second_raw.is_empty() {
+                return Err(MatrixIdError::NoIdentifier.into());
+            }
+
             let first = percent_decode_str(first_raw).decode_utf8()?;
             let second = percent_decode_str(second_raw).decode_utf8()?;
 
